@@ -2,6 +2,7 @@ package rules
 
 import (
 	"fmt"
+	"os"
 	"go/constant"
 	"go/token"
 	"go/types"
@@ -203,6 +204,8 @@ func qcErrorLiteral(v ssa.Value) (map[string]ssa.Value, bool) {
 		return nil, false
 	}
 	fields := map[string]ssa.Value{}
+	var zero *ssa.Store
+	var fieldStores []*ssa.Store
 	for _, ref := range *al.Referrers() {
 		switch u := ref.(type) {
 		case *ssa.FieldAddr:
@@ -213,10 +216,38 @@ func qcErrorLiteral(v ssa.Value) (map[string]ssa.Value, bool) {
 						return nil, false
 					}
 					fields[fld.Name()] = st.Val
+					fieldStores = append(fieldStores, st)
 				}
 			}
 		case *ssa.Store:
 			if u.Addr == al {
+				// a literal that names only some of the fields is compiled as a store of the zero
+				// value followed by the field stores
+				c, isC := u.Val.(*ssa.Const)
+				if !isC || c.Value != nil || zero != nil {
+					if os.Getenv("VERIF_DEBUG") != "" {
+						fmt.Printf("DEBUG structLiteral zero-store rejected: isC=%v val=%v zero=%v\n", isC, u.Val, zero)
+					}
+					return nil, false
+				}
+				zero = u
+			}
+		}
+	}
+	if zero != nil {
+		idx := func(in ssa.Instruction) int {
+			for i, x := range in.Block().Instrs {
+				if x == in {
+					return i
+				}
+			}
+			return -1
+		}
+		for _, st := range fieldStores {
+			if st.Block() != zero.Block() || idx(st) < idx(zero) {
+				if os.Getenv("VERIF_DEBUG") != "" {
+					fmt.Printf("DEBUG structLiteral order rejected: %v (%d) vs zero (%d) blocks %v %v\n", st, idx(st), idx(zero), st.Block(), zero.Block())
+				}
 				return nil, false
 			}
 		}
@@ -456,7 +487,16 @@ func structLiteral(v ssa.Value) (map[string]ssa.Value, bool) {
 	if !ok {
 		return nil, false
 	}
+	return allocLiteralFields(al)
+}
+
+// allocLiteralFields: the field stores of a struct built in a local slot by a
+// composite literal. A literal that names only some of the fields is compiled
+// as a store of the zero value followed by the field stores.
+func allocLiteralFields(al *ssa.Alloc) (map[string]ssa.Value, bool) {
 	fields := map[string]ssa.Value{}
+	var zero *ssa.Store
+	var fieldStores []*ssa.Store
 	for _, ref := range *al.Referrers() {
 		switch u := ref.(type) {
 		case *ssa.FieldAddr:
@@ -467,10 +507,30 @@ func structLiteral(v ssa.Value) (map[string]ssa.Value, bool) {
 						return nil, false
 					}
 					fields[fld.Name()] = st.Val
+					fieldStores = append(fieldStores, st)
 				}
 			}
 		case *ssa.Store:
 			if u.Addr == al {
+				c, isC := u.Val.(*ssa.Const)
+				if !isC || c.Value != nil || zero != nil {
+					return nil, false
+				}
+				zero = u
+			}
+		}
+	}
+	if zero != nil {
+		idx := func(in ssa.Instruction) int {
+			for i, x := range in.Block().Instrs {
+				if x == in {
+					return i
+				}
+			}
+			return -1
+		}
+		for _, st := range fieldStores {
+			if st.Block() != zero.Block() || idx(st) < idx(zero) {
 				return nil, false
 			}
 		}
